@@ -6,6 +6,7 @@ CONSTANTS
   MaxWork = 600
   NumK = 1
   Cross = FALSE
+  Uniform = {}
   Only = {"type0font"}
 INVARIANTS TypeOK StackBounded OutcomeOk WorkBounded
 
